@@ -17,6 +17,7 @@ Definition op_of_jv (v : jv) : op :=
   let c := nat_of_jv (jfield "c" v) in
   if str_eqb k (pys "open") then OOpen c
   else if str_eqb k (pys "badjson") then OBadJson c
+  else if str_eqb k (pys "crashjson") then OCrashJson c
   else if str_eqb k (pys "row") then ORow c (as_str (jfield "sid" v))
   else if str_eqb k (pys "notify") then ONotify (nat_of_jv (jfield "k" v))
   else if str_eqb k (pys "drop") then ODrop c
